@@ -328,6 +328,45 @@ def search(rep: C.Report, tier: str, broken):
                 if bad_:
                     rep.violation("evaluation at integer-typed abscissae differs from the evaluation at the same abscissae given as floats",
                                   dict(det, returnValueCount=k, modes=[ml.name, mu.name], table=[1.0, 4.0, 13]), finding_key="C18:integer-input")
+    # directed histories: a derivative is taken, THEN the table changes (extension, mode change, new table from values), then a derivative is
+    # asked inside the new range but outside the old one: it must be the derivative of the CURRENT table
+    for k in (1, 3):
+        coefH = [[1.3, -2.1, 0.7, 0.31], [0.25, 1.1, 0.0, -0.9], [2.2, 0.0, 1.7, 0.0]]
+        clsH = make(k, coefH)
+        for hist in ("extend", "modes+extend", "from-values", "extend-lower"):
+            for order in (1, 2):
+                f = clsH(bUseAdaptiveInterpolation=False, initialInterpolationPointCount=10, returnValueCount=k)
+                f.badpts = []
+                f.newInterpolationTable(1.0, 4.0, 13)
+                f.derivative(np.array([2.0, 3.0]), order)                       # first use, on the old table
+                try:
+                    if hist == "extend":
+                        f.extendInterpolationTable(1.0, 6.0, 0, 8)
+                        xq = 5.25
+                    elif hist == "extend-lower":
+                        f.extendInterpolationTable(-1.0, 4.0, 8, 0)
+                        xq = -0.5
+                    elif hist == "modes+extend":
+                        f.setExtrapolationType(E.CONSTANT, E.CONSTANT)
+                        f.extendInterpolationTable(0.0, 6.0, 4, 8)
+                        xq = 5.25
+                    else:
+                        xs_ = np.linspace(10.0, 14.0, 17)
+                        f.newInterpolationTableFromValues(xs_, f._functionImplementation(xs_))
+                        xq = 12.3
+                    got = np.asarray(f.derivative(xq, order), dtype=float)
+                except Exception as ex:  # noqa: BLE001
+                    rep.violation("a derivative after a change of the table raised", {"history": hist, "order": order, "k": k, "error": f"{type(ex).__name__}: {str(ex)[:120]}"},
+                                  finding_key="C18:derivative-after-table-change")
+                    continue
+                want = np.array([(c[1] + 2 * c[2] * xq + 3 * c[3] * xq ** 2) if order == 1 else (2 * c[2] + 6 * c[3] * xq) for c in coefH[:k]])
+                want = want if k > 1 else want[0]
+                rep.case(key=("derivative-after-table-change", k, hist, order))
+                rep.count("derivative after a table change")
+                if not (np.all(np.isfinite(got)) and np.allclose(got, want, rtol=1e-7, atol=1e-7)):
+                    rep.violation("a derivative taken after the table changed is not the derivative of the current table (inside the new range)",
+                                  {"history": "newInterpolationTable(1,4,13); derivative([2,3]); " + hist + f"; derivative({xq}, order={order})", "returnValueCount": k,
+                                   "got": np.asarray(got).tolist(), "exact": np.asarray(want).tolist()}, finding_key="C18:derivative-after-table-change")
     # directed history for the mid-call adaptive update (Lean: Props.C18.finding_midcall_update)
     cls = make(1, [[1, 2, 0, 1]] * 4)
     f = cls(bUseAdaptiveInterpolation=True, initialInterpolationPointCount=10, returnValueCount=1)
